@@ -185,13 +185,17 @@ func importResources(source map[string]any, target map[string]any) error {
 func importResource(source map[string]any, target map[string]any, key string) error {
 	from := source[key]
 	if from != nil {
-		var to map[string]any
-		if v, ok := target[key]; ok {
-			to = v.(map[string]any)
-		} else {
-			to = map[string]any{}
+		to := map[string]any{}
+		if v, ok := target[key]; ok && v != nil {
+			if to, ok = v.(map[string]any); !ok {
+				return fmt.Errorf("%s must be a mapping", key)
+			}
 		}
-		for name, a := range from.(map[string]any) {
+		imported, ok := from.(map[string]any)
+		if !ok {
+			return fmt.Errorf("%s must be a mapping", key)
+		}
+		for name, a := range imported {
 			if conflict, ok := to[name]; ok {
 				if reflect.DeepEqual(a, conflict) {
 					continue
